@@ -19,7 +19,7 @@ class TlcError(Exception):
 
 
 def _claim_numbers(enc, cl):
-    for key in ("poly", "lhs", "rhsp", "pa", "pb"):
+    for key in ("poly", "lhs", "rhsp", "pa", "pb", "ep"):
         if key in cl:
             yield from enc.numbers_poly(cl[key])
     if "cond" in cl:
@@ -55,7 +55,7 @@ def _enc_claim(enc, cl, D):
     for key in ("pi", "a", "b", "k", "undef", "part", "tag", "lag"):
         if key in cl and not (key == "k" and cl["t"] == "rec"):
             out[key] = cl[key]
-    for key in ("poly", "lhs", "rhsp", "pa", "pb"):
+    for key in ("poly", "lhs", "rhsp", "pa", "pb", "ep"):
         if key in cl:
             out[key] = enc.poly(cl[key], D)
     if "cond" in cl:
